@@ -429,18 +429,17 @@ impl Session {
         let n = rec.len() - 1;
         let mut pos = n;
         if failed != "-" {
-            // a failed step: one rnext must land on the state before it or one step earlier
+            // a failed step: if it changed (and logged) something, one rnext undoes exactly that and lands on the
+            // state before it; if it changed nothing, one rnext undoes the instruction before
+            let dfail = dump_nometer(&self.xs().verif_dump(true));
             let r = self.xs().rnext();
             let d = dump_nometer(&self.xs().verif_dump(true));
             if r.is_err() {
                 return format!("walk:MISMATCH rnext-after-failure {}", res_string(self.xs(), &r));
             }
-            if d == rec[n] {
-                pos = n;
-            } else if n > 0 && d == rec[n - 1] {
-                pos = n - 1;
-            } else {
-                return format!("walk:MISMATCH after-failed-step n={} got={}", n, d);
+            pos = if dfail != rec[n] { n } else if n > 0 { n - 1 } else { 0 };
+            if d != rec[pos] {
+                return format!("walk:MISMATCH after-failed-step n={} partial={} expected={} got={}", n, dfail != rec[n], rec[pos], d);
             }
             fnv(&mut h, &d);
         }
